@@ -339,6 +339,24 @@ class PoolingCorr(Corr):
             per_label = [sum(1 for g in obs["gts"] for x in g if x == lab) for lab in MC.TARGETS]
             if mp["ngt"] != per_label:
                 return f"per-label scene ground-truth counts {mp['ngt']} differ from the summed frame counts {per_label}"
+        # the scene-level per-label AP / APH = the interpolated area of the POOLED results of that label (heading weights as each frame's
+        # own results carry them), recomputed here from the frame results with exact rationals
+        for mp in sc["maps"]:
+            mode = A.MODE_BY_VALUE[mp["mode"]]
+            mx = A.MAXIMIZE[mode]
+            for kind, unit, got_list in (("ap", True, mp["aps"]), ("aph", False, mp["aphs"])):
+                pooled = [f for frame in obs["facts"][mode][kind] for f in frame]
+                for li, (lab, thr) in enumerate(zip(MC.TARGETS, mp["thr"])):
+                    fs = [f for f in pooled if (f["est_label"] == lab) or (f["est_label"] not in MC.TARGETS and f["gt_label"] == lab)]
+                    num = sum(1 for g in obs["gts"] for x in g if x == lab)
+
+                    def thr_of(f, lab=lab, thr=thr):
+                        return thr if (f["gt_label"] if f["has_gt"] else f["est_label"]) == lab else None
+                    ref, _, _ = A.ref_ap(fs, mx, num, unit, thr_of)
+                    got = got_list[li] if li < len(got_list) else None
+                    if (ref is None) != (got is None) or (ref is not None and abs(float(ref) - got) > 1e-9):
+                        return (f"scene {kind.upper()}[{lab}] ({mp['mode']}, threshold {thr}) = {got} but the interpolated area over the pooled "
+                                f"results of that label is {None if ref is None else float(ref)}")
         if obs["scene_one"]["maps"] != obs["frame_one"]["maps"]:
             return "a one-frame scene does not reproduce that frame's detection score"
         if case["distinct"]:
